@@ -19,6 +19,7 @@ func init() {
 		&Rule{ID: "R06.2", Props: []string{"C06"}, Floor: 5, Title: "localStatus: the filter shortcut masks cover every status the guarded regions produce; each arm assigns the status it tested", Run: r062},
 		&Rule{ID: "R06.3", Props: []string{"C06"}, Floor: 16, Title: "Operation.ToTrackerStatus is total over (type, phase) and maps each pair into the class the property names", Run: r063},
 		&Rule{ID: "R06.4", Props: []string{"C06"}, Floor: 4, Title: "Status and StatusAll classify 'in the pinset, not on IPFS' in the same class and decide meta before remote before IPFS", Run: r064},
+		&Rule{ID: "R05.7", Props: []string{"C05", "C06"}, Floor: 1, Title: "the listing StatusAll/RecoverAll work from is interpreted soundly: presence in the listing means 'pinned here' only for a recursive-only listing, a wider listing is compared with each pin's mode", Run: r057},
 		&Rule{ID: "R06.5", Props: []string{"C06"}, Floor: 1, Title: "the IPFS listing used by StatusAll covers every pin mode the per-CID view understands", Run: r065},
 		&Rule{ID: "R06.6", Props: []string{"C06"}, Floor: 2, Title: "GlobalPinInfo holds one entry per peer: PeerMap is a map keyed by the peer and Add is its only writer", Run: r066},
 		&Rule{ID: "R06.7", Props: []string{"C06"}, Floor: 15, Title: "tracker status algebra: simple statuses are distinct single bits, composites are the OR of their members, every constant has a name, Match is bit intersection", Run: r067},
@@ -573,9 +574,20 @@ func r065(c *Ctx, r *R) {
 			}
 			return true
 		})
+		// (however String is written: evaluated first, the switch read
+		// syntactically as a fall-back)
+		if sf := c.P.Func("api", "PinMode.String"); sf != nil {
+			if _, v, ok := ssaEval(sf, bindParams(sf, map[int]constant.Value{0: k.Val()})); ok && v != nil && v.Kind() == constant.String {
+				res = constant.StringVal(v)
+			}
+		}
 		if res != "" {
 			modeStr[res] = true
 		}
+	}
+	if len(modeStr) < 2 {
+		r.Und("modes", f.Pos(), "the names of the pin modes could not be determined from PinMode.String")
+		return
 	}
 	var listed []string
 	for _, s := range c.RPC {
@@ -900,4 +912,50 @@ func indexOf(v ssa.Value) ssa.Value {
 		return x.Index
 	}
 	return nil
+}
+
+func r057(c *Ctx, r *R) {
+	f := c.fn(r, "pintracker/stateless", "Tracker.ipfsStatusAll")
+	if f == nil {
+		return
+	}
+	var listed []string
+	for _, s := range c.RPC {
+		if s.Fn != f || len(s.Targets) != 1 || s.Targets[0].Method != "PinLs" {
+			continue
+		}
+		a := callArgs(s.Call.Common())
+		if str, ok := constString(a[4]); ok {
+			listed = append(listed, str)
+		} else {
+			r.Und("pinls-arg", s.Call.Pos(), "PinLs filter is not a constant")
+			return
+		}
+	}
+	if len(listed) == 0 {
+		r.Und("pinls", f.Pos(), "ipfsStatusAll makes no PinLs call")
+		return
+	}
+	sort.Strings(listed)
+	// a listing wider than the recursive pins is only usable if the entries
+	// are compared with the mode the pinset records: localStatus decides
+	// "pinned here" by the mere presence of the CID in the listing, which
+	// is sound for a recursive-only listing of (mostly) recursive pins and
+	// wrong as soon as direct or indirect entries are in it
+	wider := false
+	for _, l := range listed {
+		if l != "recursive" {
+			wider = true
+		}
+	}
+	if !wider {
+		r.OK("stateless.localStatus:mode-aware-listing", f.Pos(), "the listing holds recursive pins only: presence means pinned recursively")
+	}
+	if wider {
+		modeAware := false
+		if ls := c.P.Func("pintracker/stateless", "Tracker.localStatus"); ls != nil {
+			modeAware = len(findCallsDeep(ls, "api.IPFSPinStatus).IsPinned")) > 0
+		}
+		r.Check(modeAware, "stateless.localStatus:mode-aware-listing", f.Pos(), "a listing that includes direct/indirect entries is compared with each pin's mode", fmt.Sprintf("StatusAll lists %v pins from IPFS but decides 'pinned here' by presence in the listing: an indirect entry (a block of another pin) or a direct pin of a recursively pinned item hides that the item is not pinned as required, so it is never reported unexpectedly_unpinned and never recovered", listed))
+	}
 }
